@@ -273,6 +273,21 @@ OpMonBad(pre, post, op, log) ==
          THEN {} ELSE {<<"mon", "C04">>}
     [] OTHER -> {}
 
+\* C05: "answers every query exactly as a converter freshly constructed from its current records would".  A `new` event marked
+\* fresh_of = i built a converter from copies of converter i's records and asked both the same questions: the two LOGGED
+\* answers must be identical (raw comparison: order of lists, exception class)
+FreshBad(ev) ==
+  IF "fresh_of" \notin DOMAIN ev.op \/ ev.out[1] # "ok" THEN {}
+  ELSE LET i == ev.op.fresh_of  j == Len(ev.convs) IN
+       (IF \E q1, q2 \in 1..Len(ev.pt) :
+              /\ ev.pt[q1].i = i /\ ev.pt[q2].i = j /\ ev.pt[q1].x = ev.pt[q2].x
+              /\ \E key \in (DOMAIN ev.pt[q1].a) \cap (DOMAIN ev.pt[q2].a) : ev.pt[q1].a[key] # ev.pt[q2].a[key]
+        THEN {<<"mon", "C05", "fresh_converter_answers_differently">>} ELSE {}) \cup
+       (IF \E q1, q2 \in 1..Len(ev.ppt) :
+              /\ ev.ppt[q1].i = i /\ ev.ppt[q2].i = j /\ ev.ppt[q1].p = ev.ppt[q2].p /\ ev.ppt[q1].id = ev.ppt[q2].id
+              /\ \E key \in (DOMAIN ev.ppt[q1].a) \cap (DOMAIN ev.ppt[q2].a) : ev.ppt[q1].a[key] # ev.ppt[q2].a[key]
+        THEN {<<"mon", "C05", "fresh_converter_answers_differently">>} ELSE {})
+
 ---------------------------------------------------------------------------
 PreOf(t, l) == PostOf(t, l - 1)
 
@@ -310,6 +325,7 @@ EventBad(t, l) ==
   UNION {MonBad(ev, i, exp[i]) : i \in {ev.pt[q].i : q \in 1..Len(ev.pt)} \cup {ev.ppt[q].i : q \in 1..Len(ev.ppt)}} \cup
   (IF InputsStrict(pre, ev.op) THEN OpMonBad(pre, post, ev.op, ev.out) ELSE {}) \cup
   ReadMonBad(t, pre, post, ev.op, ev.out) \cup
+  (IF "C05" \in Focus THEN FreshBad(ev) ELSE {}) \cup
   UpgradeBad(ev.op, ev.out)
 
 VARIABLES tid, l
